@@ -62,3 +62,33 @@ def contracts(null_ind=False):
     C.update({'mju_gather': g, 'mju_scatter': s, 'mju_gatherMasked': gather(True), 'mju_gatherInt': gather(), 'mju_scatterInt': scatter(),
               'c23_roundtrip': ROUNDTRIP, 'c23_roundtrip_int': ROUNDTRIP})
     return C
+
+
+# row-wise data movement on CSR matrices (engine_util_sparse.c): res[row, :] = mat[row, :] and res[row, :] = 0 for the listed rows
+CSR_OK = ('forall(lambda r: implies(0 <= r and r < NR, 0 <= rowadr[r] and 0 <= rownnz[r] and rowadr[r] + rownnz[r] <= NNZ)) and '
+          'forall(lambda i: implies(0 <= i and i < nrow, 0 <= row[i] and row[i] < NR))')
+COPIED = lambda upto: ('forall(lambda i, k: implies(0 <= i and i < %s and 0 <= k and k < rownnz[row[i]], res[rowadr[row[i]] + k] == mat[rowadr[row[i]] + k]))' % upto)
+ZEROED = lambda upto: ('forall(lambda i, k: implies(0 <= i and i < %s and 0 <= k and k < rownnz[row[i]], res[rowadr[row[i]] + k] == num_zero()))' % upto)
+COPY_SPARSE = {
+    'ghost_params': {'NR': 'int', 'NNZ': 'int'},
+    'params': {'res': {'len': 'NNZ'}, 'mat': {'len': 'NNZ'}, 'rownnz': {'len': 'NR'}, 'rowadr': {'len': 'NR'}, 'row': {'len': 'nrow'}},
+    'requires': {'sizes': '0 <= nrow and nrow < 2**30 and 0 <= NR and NR < 2**30 and 0 <= NNZ and NNZ < 2**30', 'csr_rows_inside_the_value_arrays': CSR_OK},
+    'assigns': ['res[*]'],
+    'ensures': {'listed_rows_are_copied': COPIED('nrow')},
+    'loops': {0: {'invariant': {'range': '0 <= i and i <= nrow', 'done': COPIED('i').replace('lambda i, k', 'lambda q, k').replace('row[i]', 'row[q]').replace('0 <= i and i <', '0 <= q and q <')}}},
+    'no_error': True,
+}
+ZERO_SPARSE = {
+    'ghost_params': {'NR': 'int', 'NNZ': 'int'},
+    'params': {'res': {'len': 'NNZ'}, 'rownnz': {'len': 'NR'}, 'rowadr': {'len': 'NR'}, 'row': {'len': 'nrow'}},
+    'requires': {'sizes': '0 <= nrow and nrow < 2**30 and 0 <= NR and NR < 2**30 and 0 <= NNZ and NNZ < 2**30', 'csr_rows_inside_the_value_arrays': CSR_OK},
+    'assigns': ['res[*]'],
+    'ensures': {'listed_rows_are_zeroed': ZEROED('nrow')},
+    'loops': {0: {'invariant': {'range': '0 <= i and i <= nrow', 'done': ZEROED('i').replace('lambda i, k', 'lambda q, k').replace('row[i]', 'row[q]').replace('0 <= i and i <', '0 <= q and q <')}}},
+    'no_error': True,
+}
+
+
+def sparse_contracts():
+    from contracts.sleep import ZERO
+    return {'__defs__': {}, 'mju_copy': STATE['mju_copy'], 'mju_zero': ZERO, 'mju_copySparse': COPY_SPARSE, 'mju_zeroSparse': ZERO_SPARSE}
